@@ -77,6 +77,22 @@ func (t tevStore) VerifyExchangeActorToken(ctx context.Context, token string, tt
 	return t.verify(token, tt)
 }
 
+// tevStoreX is tevStore over a storage that also has the optional "Extras" capabilities
+// (CanGetPrivateClaimsFromRequest, CanSetUserinfoFromRequest, CanTerminateSessionFromRequest, JWTProfileTokenStorage).
+type tevStoreX struct {
+	tevStore
+	op.CanGetPrivateClaimsFromRequest
+	op.CanSetUserinfoFromRequest
+	op.CanTerminateSessionFromRequest
+	op.JWTProfileTokenStorage
+}
+
+var (
+	_ op.TokenExchangeTokensVerifierStorage = tevStoreX{}
+	_ op.TokenExchangeStorage               = tevStoreX{}
+	_ op.CanGetPrivateClaimsFromRequest     = tevStoreX{}
+)
+
 var (
 	_ op.TokenExchangeTokensVerifierStorage = tevStore{}
 	_ op.TokenExchangeStorage               = tevStore{}
@@ -91,19 +107,25 @@ type world struct {
 }
 
 // newWorld is opdrv.NewWorld with the option of wrapping the storage in tevStore.
-func newWorld(sig *keys.Key, verifier bool) (*world, *mon.PanicInfo) {
+func newWorld(sig *keys.Key, verifier, extras bool) (*world, *mon.PanicInfo) {
 	st := vstore.New(sig)
 	st.TEActorClaim = true
 	st.TEJWTTypeOK = verifier
 	w := &world{verifier: verifier, sig: sig}
-	var storage op.Storage = st.As(vstore.Full)
+	base := st.As(vstore.Caps{CC: true, TE: true, Dev: true, Extras: extras})
+	storage := base
 	if verifier {
-		storage = tevStore{
-			Storage:                    storage,
-			TokenExchangeStorage:       storage.(op.TokenExchangeStorage),
-			ClientCredentialsStorage:   storage.(op.ClientCredentialsStorage),
-			DeviceAuthorizationStorage: storage.(op.DeviceAuthorizationStorage),
+		tev := tevStore{
+			Storage:                    base,
+			TokenExchangeStorage:       base.(op.TokenExchangeStorage),
+			ClientCredentialsStorage:   base.(op.ClientCredentialsStorage),
+			DeviceAuthorizationStorage: base.(op.DeviceAuthorizationStorage),
 			calls:                      &w.tevCalls,
+		}
+		storage = tev
+		if extras {
+			storage = tevStoreX{tev, base.(op.CanGetPrivateClaimsFromRequest), base.(op.CanSetUserinfoFromRequest),
+				base.(op.CanTerminateSessionFromRequest), base.(op.JWTProfileTokenStorage)}
 		}
 	}
 	ow := &opdrv.World{Store: st, Storage: storage, Issuer: opdrv.DefaultIssuer, Host: "op.verif.test"}
